@@ -195,7 +195,7 @@ def runText (c : TextCase) : String :=
       match kernRead b with
       | .error e => .error e
       | .ok km =>
-        let ll := findLookups m [("und-Zzzz", some kernLangSys)] kernFeatures 1
+        let ll := findLookups m [("und-Zzzz-x-dflt", some kernLangSys)] kernFeatures 1
           (switchFn (effective Gen.gposDefaultFeatures c.psw))
         .ok (some fun seq => if ll.contains 0 then kernAdjust km seq else seq)
   match gposE with
@@ -242,6 +242,14 @@ def handle (op : String) (fs : List (String × String)) : String :=
         let keys := (subs.flatMap fun s => s.pairs.map (·.1)) ++ got.map (·.1)
         if !(keys.all (noOverflow subs)) then "outside:overflow"
         else if keys.all fun k => kernSpec subs k == mget got k then "ok" else "bad:value"
+    | _, _, _ => "bad-case"
+  else if op == "layout.kern.ximage" then
+    -- independent implementation vs SPEC: the answers expected from x/image's Kern for the pairs asked
+    match (getField fs "subs").bind parseSubs, (getField fs "kern").bind fromHex,
+          (getField fs "pairs").bind parseNatMap with
+    | some subs, some data, some pairs =>
+      if encKern subs != data then "bad:encoding"
+      else ",".intercalate (pairs.map fun p => s!"{p.1}:{p.2}:{kernSpec subs p}")
     | _, _, _ => "bad-case"
   else if op == "layout.lig" then
     match (getField fs "map").bind parseNatMap with
